@@ -10,8 +10,88 @@ STATEFUL = [
     '"abc" elem', "dup (|A| A A add)", "{dup 1 add} apply", "let F := {(1,2) add}; F", "?((1,2) 2 ?eq)", "((1,2) == 2)",
     "(1,2,3) (?(2 ?lt) 10, ?(2 ?ge) 20)", "0 4 aset elem", "0 8 aset 2 4 aset sub range", "1 2 3 `[4]", "7 8 9 ``[5]",
     "(drop, 1)", "(1, drop drop drop drop)", "1 0 div", "(1, 2) ((3, 4) dup, 5)", "[[1,2] elem (3,4)]",
+    # literals and empty containers held by the compiled query must not be written through
+    "(|X| [] [X] add)", "[] swap (|X| [X] add)", "[7] add", '"" swap "%s" add', "(|X| [] [X] add [] add)", "[] dup [1] add swap",
+    "[] (|E| E [1] add E)", "(|X| [[]] elem [X] add)", "[] [] add [2] add", '(|X| "" "x" add)',
 ]
-INPUTS = ["(1, 2, 3)", "(0, 5)", '("a", "bc")', "(1 2, 3)", "([1], [2, 3])", "1"]
+INPUTS = ["(1, 2, 3)", "(0, 5)", '("a", "bc")', "(1 2, 3)", "([1], [2, 3])", "1", "([], [1], [])", '("", "a")', "([] 1, [] 2)"]
+
+# queries on a (Dwarf, offset) stack: all executions share one Dwarf value and whatever it caches
+DWARF_QUERIES = [
+    "(|D N| D entry (offset >= N) ?root offset)", "(|D N| D entry (offset == N) parent* offset)",
+    "(|D N| D entry (offset == N) root offset)", "(|D N| D raw entry (offset == N) parent offset)",
+    "(|D N| D raw entry (offset == N) ?root offset)", "(|D N| D entry (offset == N) child offset)",
+    "(|D N| D entry (offset == N) (name, @AT_decl_line, @AT_type offset))", "(|D N| D entry (offset == N) abbrev code)",
+    "(|D N| [D entry (offset >= N) ?root] length)", "(|D N| D raw unit (offset >= N) root offset)",
+    "(|D N| D entry (offset == N) unit offset)", "(|D N| D entry (offset >= N) !root parent ?root offset)",
+    "(|D N| D abbrev entry (offset >= N) code)", "(|D N| D entry (offset == N) attribute label)",
+]
+
+
+def dwarf_histories(ctx, h):
+    """histories over one compiled DWARF query with all executions on the same Dwarf value, asked about DIEs of later units
+    first; every pull compared with a fresh run on a freshly opened Dwarf"""
+    import glob
+    import os
+    from . import dwcorr
+    from .c05 import walk
+    fs = dwcorr.Forests(ctx)
+    rng = ctx.rng
+    n = 12 if ctx.tier == "quick" else 200
+    lines, meta = [], []
+    try:
+        files = []
+        for k in range(n):
+            desc, path = fs.make(rng, max_units=5, min_units=2, cu_imports=0.3 if k % 2 else 0.0)
+            offs = [[x["offset"] for x in walk(u["root"])] for u in desc["units"]]
+            files.append((path, offs))
+        for s in ("twocus", "dwz-partial", "a1.out"):
+            p = os.path.join(common.REPO, "tests", s)
+            if os.path.exists(p):
+                files.append((p, None))
+        for path, offs in files:
+            for rep in range(3 if ctx.tier == "quick" else 6):
+                if offs:
+                    # later units first, then earlier ones
+                    picks = [rng.choice(offs[-1]), rng.choice(offs[rng.randrange(len(offs))]), rng.choice(offs[0])]
+                    if rng.random() < 0.4:
+                        picks[0] = offs[-1][0]          # the root of the last unit
+                        picks[2] = offs[0][0]
+                else:
+                    picks = [rng.choice([0x60, 0x5e, 0x80, 0xb3, 0x14]), rng.choice([0, 0xb, 0x2d]), rng.choice([0xb, 0, 0x34])]
+                inputs = "(|D| (%s))" % ", ".join("D %d" % o for o in picks)
+                q = rng.choice(DWARF_QUERIES)
+                seed = rng.randrange(1 << 30)
+                lines.append("H %d %s %s - %s" % (seed, zwcorr.hx(q), zwcorr.hx(inputs), zwcorr.hx(path)))
+                meta.append((seed, q, inputs, path))
+        rc, out, err = common.run_lines(h.exe, lines, timeout=3600, args=[str(h.budget), "20"])
+        recs, cur = [], []
+        for l in out:
+            if l == ".":
+                recs.append(cur); cur = []
+            else:
+                cur.append(l)
+        okc = pulls = 0
+        for (seed, q, inputs, path), r in zip(meta, recs):
+            hl = next((x for x in r if x.startswith("H ")), None)
+            if hl is None:
+                continue
+            if hl.startswith("H ok"):
+                okc += 1
+                pulls += int(hl.split("pulls=")[1].split()[0])
+            else:
+                ctx.violation("history over the compiled query %r on one shared Dwarf of %s, inputs %r: %s"
+                              % (q, os.path.basename(path), inputs, hl[2:300]),
+                              {"stream": "C12-dwarf-history", "input": dict(fs.inp(None, path, q), seed=seed, inputs=inputs), "got": hl,
+                               "theorem": "ZwVerif.C12.exec_independent"})
+        if rc != 0 or len(recs) != len(lines):
+            bad = min(len(recs), len(meta) - 1)
+            ctx.violation("the library crashed during a DWARF history over %r: %s" % (meta[bad][1], err[-300:]),
+                          {"stream": "C12-dwarf-history", "input": dict(fs.inp(None, meta[bad][3], meta[bad][1]), seed=meta[bad][0], inputs=meta[bad][2]),
+                           "stderr": err[-2000:]})
+        return okc, pulls, len(lines)
+    finally:
+        fs.cleanup()
 
 
 def run(ctx):
@@ -96,6 +176,10 @@ def run(ctx):
                           % (b, ra[1].res[:4] if len(ra) > 1 else "crash", a, rb[0].res[:4] if rb else "crash"),
                           {"stream": "C12-cross-compilation", "input": {"first": a, "second": b}, "got": ra[1].raw[:6] if len(ra) > 1 else None,
                            "expected": rb[0].raw[:6] if rb else None, "theorem": "ZwVerif.C12.static_state_audit"})
+    dok, dpulls, dn = (0, 0, 0) if ctx.replay else dwarf_histories(ctx, h)
+    ctx.cov["dwarf_histories_ok"] = dok
+    ctx.cov["dwarf_histories"] = dn
+    ctx.cov["dwarf_pulls_compared_with_fresh_dwarf"] = dpulls
     ctx.cov["cross_compilation_pairs_ok"] = cross_ok
     ctx.cov["evaluations"] = len(lines)
     ctx.cov["distinct_nontrivial"] = ok
@@ -106,8 +190,10 @@ def run(ctx):
                        "live result sets on up to three different input stacks, 60 random execute / pull / abandon steps; every pull "
                        "is compared with a fresh parse-and-run on that input in the same process; inputs must be unchanged afterwards; "
                        "recompiling the same text must behave the same; another query text (incl. the ``[ forms) is compiled before "
-                       "or after.  Plus the regenerated list of writable static symbols vs the allow-list theorem")
+                       "or after.  DWARF histories: the same on (Dwarf, offset) stacks sharing one Dwarf value, reference runs on a freshly "
+                       "opened Dwarf.  Plus the regenerated list of writable static symbols vs the allow-list theorem")
     ctx.sample({"line": lines[0][:120]})
     ctx.sample({"query": meta[-1][1], "inputs": meta[-1][2]})
     ctx.assumptions += ["`no hidden state` = an audit of the object files' writable symbols + mutable/const_cast free reading, not a "
-                        "semantics of C++; DWARF producers' caches are covered by the DWARF checks"]
+                        "semantics of C++; caches hanging off a Dwarf value (parent / root tables) are exercised by the DWARF histories: one "
+                        "Dwarf shared by all executions, asked about later units first, against a freshly opened Dwarf"]
